@@ -535,6 +535,46 @@ fn policy_eq(req: &J) -> J {
     }
 }
 
+/// transitive closure of a small entity graph through cedar_policy_core::entities::Entities::from_entities.
+/// in: {nodes: n, keys: nk (>= n; ids n..nk have no entity), edges: [[i, j], ..], mode: "compute" | "enforce"}
+/// out: {ok: bool, err: text, desc: [[bool; nk]; n]}  (desc[i][j] = entity i is_descendant_of id j)
+fn tc(req: &J) -> J {
+    use cedar_policy_core::ast::{Entity, EntityUID};
+    use cedar_policy_core::entities::{Entities, NoEntitiesSchema, TCComputation};
+    use cedar_policy_core::extensions::Extensions;
+    let n = req["nodes"].as_u64().unwrap_or(0) as usize;
+    let nk = req["keys"].as_u64().unwrap_or(n as u64) as usize;
+    let uid = |i: usize| EntityUID::with_eid_and_type("N", &format!("n{i}")).unwrap();
+    let mut ents = vec![];
+    for i in 0..n {
+        let mut parents = std::collections::HashSet::new();
+        for e in req["edges"].as_array().cloned().unwrap_or_default() {
+            if e[0].as_u64() == Some(i as u64) {
+                parents.insert(uid(e[1].as_u64().unwrap_or(0) as usize));
+            }
+        }
+        ents.push(Entity::new_with_attr_partial_value(uid(i), [], std::collections::HashSet::new(), parents, []));
+    }
+    let mode = if req["mode"].as_str() == Some("enforce") { TCComputation::EnforceAlreadyComputed } else { TCComputation::ComputeNow };
+    match Entities::from_entities(ents, None::<&NoEntitiesSchema>, mode, Extensions::all_available()) {
+        Ok(es) => {
+            let mut desc = vec![];
+            for i in 0..n {
+                let e = es.entity(&uid(i));
+                let row: Vec<bool> = (0..nk)
+                    .map(|j| match &e {
+                        cedar_policy_core::entities::Dereference::Data(e) => e.is_descendant_of(&uid(j)),
+                        _ => false,
+                    })
+                    .collect();
+                desc.push(row);
+            }
+            json!({"ok": true, "desc": desc})
+        }
+        Err(e) => json!({"ok": false, "err": e.to_string()}),
+    }
+}
+
 fn handle(req: &J) -> J {
     match req["op"].as_str().unwrap_or("") {
         "eval" => eval(req),
@@ -546,6 +586,7 @@ fn handle(req: &J) -> J {
         "validate_level" => validate_level(req),
         "conformance" => conformance(req),
         "policy_eq" => policy_eq(req),
+        "tc" => tc(req),
         other => json!({"unknown_op": other}),
     }
 }
